@@ -867,6 +867,31 @@ func c07VersionsPaged(st *backends.Stack) (ds []disc) {
 			return dsc("versions-paging", "at rest, the pages of the version listing (max-keys=%d) give %d entries, the unpaged listing %d:\n got %v\nwant %v", mk, len(got), len(full), got, full)
 		}
 	}
+	// ... and the order the concurrent uploads were stored in is the order they come back in: one more
+	// version put on top of a key and removed again by its ID leaves the key reading what it read before
+	seen := map[string]bool{}
+	for _, e := range full {
+		if seen[e.Key] {
+			continue
+		}
+		seen[e.Key] = true
+		obs := func() string {
+			g := s3x.Do(st.Handler, &s3x.Req{Method: "GET", Path: "/bk0/" + e.Key})
+			return fmt.Sprintf("%d %s %s", g.Status, md5hex(g.Body), g.Header.Get("x-amz-version-id"))
+		}
+		before := obs()
+		p := put(st, "bk0", e.Key, []byte("one more version, removed again"))
+		vid := p.Header.Get("x-amz-version-id")
+		if p.Status != 200 || vid == "" {
+			continue
+		}
+		if r := s3x.Do(st.Handler, &s3x.Req{Method: "DELETE", Path: "/bk0/" + e.Key, Query: s3x.Q("versionId", vid)}); r.Status != 204 {
+			return dsc("versions-order", "at rest, deleting the version %s just put on %q answers %s", vid, e.Key, r)
+		}
+		if after := obs(); after != before {
+			return dsc("versions-order", "at rest, %q read %s; after one more version was put on it and removed again by its ID it reads %s (status, md5, version)", e.Key, before, after)
+		}
+	}
 	return nil
 }
 
